@@ -46,15 +46,58 @@ def strip_cast(t):
     return t
 
 
+def inner_values(v):
+    """the type value of kind v: bare, and - when the code under test looks further into it (strategy objects built per image class carry the class's
+    payload) - every way of filling it in; all fillings must give the same answer"""
+    if v != 'Image':
+        return [V(TI + v)], []
+    from conc import Flags
+    D2 = V('naga::ImageDimension::D2')
+    full = [V(TI + 'Image', dim=D2, arrayed=False, **{'class': V('naga::ImageClass::Sampled', kind=V('naga::ScalarKind::Float'), multi=False)}),
+            V(TI + 'Image', dim=D2, arrayed=False, **{'class': V('naga::ImageClass::Sampled', kind=V('naga::ScalarKind::Uint'), multi=True)}),
+            V(TI + 'Image', dim=D2, arrayed=True, **{'class': V('naga::ImageClass::Depth', multi=False)}),
+            V(TI + 'Image', dim=V('naga::ImageDimension::Cube'), arrayed=False, **{'class': V('naga::ImageClass::Depth', multi=False)}),
+            V(TI + 'Image', dim=D2, arrayed=False, **{'class': V('naga::ImageClass::Storage', format=V('naga::StorageFormat::Rgba8Unorm'),
+                                                                  access=Flags('naga::StorageAccess', ['LOAD']))}),
+            V(TI + 'Image', dim=D2, arrayed=False, **{'class': V('naga::ImageClass::Storage', format=V('naga::StorageFormat::R32Uint'),
+                                                                  access=Flags('naga::StorageAccess', ['LOAD', 'STORE']))})]
+    return [V(TI + v)], full
+
+
+def eval_inner(term, scrut, v):
+    """value of `term` when the scrutinee is a type of kind v (see inner_values)"""
+    bare, full = inner_values(v)
+
+    def run1(val):
+        def leaf(t):
+            return (val,) if t == scrut else None
+        return Eval(leaf, lenient=True).ev(term)
+    try:
+        r0 = run1(bare[0])
+    except Unbound:
+        if not full:
+            raise
+        r0 = None
+    if not full:
+        return r0
+    try:
+        rs = [run1(x) for x in full]
+    except (Unbound, Diverge):
+        if r0 is None:
+            raise
+        return r0
+    if any(r != rs[0] for r in rs[1:]):
+        if r0 is not None:
+            return r0           # the bare value leaves what depends on the payload symbolic
+        raise Unbound(f'the answer for {v} differs between its fillings: {sorted(set(map(str, rs)))[:3]}')
+    return rs[0]
+
+
 def table_kinds(term, scrut, render):
     out = {}
     for v in KINDS:
-        def leaf(t, v=v):
-            if t == scrut:
-                return (V(TI + v),)
-            return None
         try:
-            out[v] = render(Eval(leaf, lenient=True).ev(term))
+            out[v] = render(eval_inner(term, scrut, v))
         except Diverge:
             out[v] = None
         except Unbound as u:
@@ -179,10 +222,8 @@ def run(rep):
                     continue
                 rep.check(k == KINDS[v], 'C04.R1.field-type', f'field-type:{v}', where, f'a {v} resource gets field type kind {k}; expected {KINDS[v]}', ok_detail=f'{v} -> {k}')
             for v, want in (('Struct', "wgpu :: BufferBinding <'a >"), ('Image', "&'a wgpu :: TextureView"), ('Sampler', "&'a wgpu :: Sampler")):
-                def leaf(t, v=v):
-                    return (V(TI + v),) if t == scr[0] else None
                 try:
-                    txt = Eval(leaf, lenient=True).ev(hh[1])
+                    txt = eval_inner(hh[1], scr[0], v)
                 except (Diverge, Unbound):
                     txt = None
                 rep.check(txt == want, 'C04.R1.field-type', f'field-type-tokens:{v}', where, f'{v}: `{txt}`, expected `{want}`', ok_detail=txt)
